@@ -343,7 +343,10 @@ def run_shard(shard):
     if kind == "e1":
         _, _, _, depth, maxdev, k, n = shard
         scheds = EX.schedules(depth, maxdev)
-        for i, hist in enumerate(EX.sequences(ACTIONS, depth)):
+        # quick tier, settled histories of length 3: without the unwatched entity and the repeated attribute value (both are applied
+        # from every reachable state by E2 and in all bursts of length 2)
+        acts = [a for a in ACTIONS if a not in ("U", "AX1")] if (depth == 3 and maxdev == 0) else ACTIONS
+        for i, hist in enumerate(EX.sequences(acts, depth)):
             if i % n != k:
                 continue
             for sched in scheds:
